@@ -246,16 +246,16 @@ def run(ctx):
     try:
         for i in range(ncase):
             d = make_case(rng, i)
-            units = list(UNITS)[i % len(UNITS)]
+            units = list(UNITS)[int(rng.integers(0, len(UNITS)))]
             # working units: half of the runs in the style's own units, half crossed
             if i % 2:
                 uc.reset_units(length='angstrom', mass='amu', energy='eV', charge='e')
             else:
                 uc.reset_units(seed=1000 + i)
-            skey, sname = STYLES[(i // 2) % len(STYLES)]
+            skey, sname = STYLES[int(rng.integers(0, len(STYLES)))]
             if UNITS[units]['charge'] is None and skey in ('charge', 'full', 'hybridq', 'hybridsq'):
                 skey, sname = 'atomic', 'atomic'
-            ff = ffs[i % 4]
+            ff = ffs[int(rng.integers(0, 4))]
             try:
                 s = build_system(am, nu, d, units)
                 text, info = s.dump('atom_data', atom_style=sname, units=units, float_format=ff, safecopy=True)
